@@ -42,6 +42,11 @@ def run(index: RepoIndex, rep) -> None:
     from ..effects import Effects
     from .c03 import eq_hash
     eq_hash(index, rep, 'C16.R7', Effects(index))
+    rep.rule('C16.R8', 'every encoding is computed by the shared per-object conversion from '
+             'the representation\'s own type / colour sets (C15.R2): the same object gets the '
+             'same triple in every cell and in every instance', floor=16)
+    from .c15 import type_sets
+    type_sets(index, rep, 'C16.R8')
     # ---- R1
     eq = index.func(GO, 'GridObject.__eq__')
     me, other = [a.arg for a in eq.node.args.args]
@@ -66,6 +71,18 @@ def run(index: RepoIndex, rep) -> None:
     rep.check(len(b) == 1 and src(b[0]) == 'return hash((self.type_index(), self.state_index, '
               'self.color))', 'C16.R1', GO, 'GridObject.__hash__', hs.node.lineno, src(b[-1]),
               'GridObject hash is not over the same (type, status, colour) triple', 'hash triple')
+    # every grid object compares by that triple: no subclass brings its own equality / hash
+    # (the encodings cannot carry what a finer equality would distinguish)
+    subs = index.subclasses('GridObject')
+    if len(subs) < 8:
+        raise AnalysisError(f'found {len(subs)} GridObject subclasses, floor is 8')
+    for sc in subs:
+        own = [mn for mn in ('__eq__', '__ne__', '__hash__') if mn in sc.methods]
+        rep.check(not own, 'C16.R1', sc.module.relpath, sc.name, sc.node.lineno,
+                  ', '.join(own) or sc.name,
+                  f'{sc.name} defines its own {own}: objects the encodings cannot tell apart '
+                  f'(same type, status, colour) would compare unequal, or equal ones hash apart',
+                  f'{sc.name} inherits the triple equality')
     ti = index.func(GO, 'GridObject.type_index')
     b = ti.body()
     rep.check(len(b) == 1 and src(b[0]) == 'return grid_object_registry.index(cls)', 'C16.R1',
